@@ -347,6 +347,20 @@ def run_check(prop, tier, repo, jobs, seed, record_baseline=False):
       vio_records.append((ob, path, True))
       lines.append('VIOLATION property=%s replay=%s' % (prop, path))
       lines.append('  bounded stand-in %s (%s)' % (b['name'], b['bound']))
+  # thorough tier: in addition to the longer solver budgets, every unit's replay scenarios are run on the real code
+  # (a bounded regression of the contracts' concrete readings; a failing one is a violation)
+  if tier == 'thorough':
+    seen_replay = set(b['replay_unit'] for b in getattr(pmod, 'BOUNDED', []))
+    for g in gens:
+      if g['unit'] in seen_replay or any(v[0]['unit'] == g['unit'] for v in vio_records):
+        continue
+      path, confirmed = replay_only(prop, g['unit'], repo, outdir, 'bounded stand-in: thorough-tier replay of the unit scenarios')
+      bounded_results.append(dict(name='replay:' + g['unit'], bound='scenario family of replays_src for this unit', held=not confirmed, replay=path))
+      if confirmed:
+        ob = dict(unit=g['unit'], name='thorough-replay', desc='the unit\'s replay scenarios fail on the real code', status='failed', backend='bounded-replay', line=g.get('line'), path=[])
+        vio_records.append((ob, path, True))
+        lines.append('VIOLATION property=%s replay=%s' % (prop, path))
+        lines.append('  thorough-tier replay of %s' % g['unit'])
   violations = [v[0] for v in vio_records]
   unknown = undecided_obs
   for g in errors:
